@@ -46,10 +46,13 @@ pub fn gen_c12_case(rng: &mut Rng, len: usize) -> Recorder {
     // "no stall history at all" also means the LIFETIME record (engagement and pull counts) plays no part in a
     // guard-off decision: half of the cases start from links that already have one (1 .. a long session's worth),
     // which a 50-step history cannot build up by itself
+    // (drawn from a generator of its own, seeded by values already drawn, so that the op stream of every case is the
+    // one it was before this was added — the stored seeds keep being reported by the default run)
+    let mut r2 = Rng::new(t0 ^ 0x0C12_0C12 ^ ((n as u64) << 40));
     let mut record: Vec<(u64, u64)> = vec![];
     for _ in 0..n {
-        if rng.chance(1, 2) { record.push((0, 0)); }
-        else { record.push((*rng.pick(&[1u64, 2, 3, 4, 7, 100, 1_000_000]), *rng.pick(&[0u64, 1, 3, 50]))); }
+        if r2.chance(1, 2) { record.push((0, 0)); }
+        else { record.push((*r2.pick(&[1u64, 2, 3, 4, 7, 100, 1_000_000]), *r2.pick(&[0u64, 1, 3, 50]))); }
     }
     let setup2 = move |w: &mut World| {
         setup(w);
